@@ -31,4 +31,5 @@ var All = map[string]func(*Ctx){
 	"C15": C15,
 	"C16": C16,
 	"C17": C17,
+	"C18": C18,
 }
